@@ -2,9 +2,11 @@
 from ..scen_limiter import limiter
 from ..scen_stages import stage_steps
 from ..scen_readinput import read_input
+from ..scen_go import go_chain
 
 
 def run(ctx):
     limiter(ctx, {'step'})
     stage_steps(ctx, want=('break',))
     read_input(ctx, ['read.break_stops_reading'])
+    go_chain(ctx, want=('go.chain',))        # the limiter is in the chain whenever --take is given (T = 0 included)
